@@ -145,6 +145,7 @@ def storeLine (st : StoreRun) (lineNo : Nat) (line : String) : Except String (St
   | "tick" :: _ => .ok (st, [])
   | "svcset" :: _ => .ok (st, [])
   | "svcdel" :: _ => .ok (st, [])
+  | ["cachefail", on] => .ok ({ st with wfail := on == "on=1" }, [])
   | "cachedoc" :: rest =>
     -- one document handed to Cache.Write: its bytes against the model's rendering of its contents
     let fs := fields rest
@@ -307,6 +308,8 @@ def storeLine (st : StoreRun) (lineNo : Nat) (line : String) : Except String (St
         let outs :=
           (if !s.allowLookup && !known s n && !(get "res" == "disabled" && (get "reqs").isEmpty) then
             [s!"PROPFAIL C16 gate_off {tag} n={get "n"} res={get "res"} reqs={get "reqs"}"] else []) ++
+          (if get "res" == "disabled" && ((get "also").any (· != 'e')) && get "also" != "-" then
+            [s!"PROPFAIL C16 gate_off {tag} n={get "n"} also={get "also"} (an updater or a tagged field reached an unknown name with lookups disabled)"] else []) ++
           (if known s n && !(get "res" == "handle" && (get "reqs").isEmpty) then [s!"PROPFAIL C16 known_served {tag} n={get "n"} res={get "res"}"] else []) ++
           (if get "res" == "err" && stripWatchers snap != snapOfModel s then [s!"PROPFAIL C16 failed_installs_nothing {tag} n={get "n"} snap={showSnap snap}"] else []) ++
           (if get "res" == "err" && reqs.length > 1 then [s!"PROPFAIL C16 no_auto_retry {tag} n={get "n"} reqs={get "reqs"}"] else []) ++
@@ -365,6 +368,9 @@ def storeLine (st : StoreRun) (lineNo : Nat) (line : String) : Except String (St
           | _, _ => "-"
         let unserved := servedOK served' snap
         let outs :=
+          (if (get "torn").toNat?.getD 0 == 0 then [] else
+            [s!"PROPFAIL C12 complete_served_value {tag} torn={get "torn"} (bytes a handle returned earlier have since changed)",
+             s!"PROPFAIL C18 value_roundtrip {tag} torn={get "torn"} (bytes a handle returned earlier have since changed)"]) ++
           (if get "midpanic" == "1" then [s!"PROPFAIL C12 handle_never_panics {tag} mid={get "mid"} (a read through a handle during the poll panicked)"] else []) ++
           (if !pollFailed && !stale.isEmpty then [s!"PROPFAIL C11 poll_ok_fresh {tag} stale={stale.map (·.name)} snap={showSnap snap} svc={get "svc"} reqs={get "reqs"}"] else []) ++
           (if pollFailed && changedOnFail then [s!"PROPFAIL C11 poll_fail_old {tag} snap={showSnap snap} pre={showSnap (snapOfModel sMid)}"] else []) ++
